@@ -10,21 +10,22 @@ package zzverif
 
 import (
 	"math/big"
+	"regexp"
 	"time"
 )
 
-func Int() int          { return int(next("u64").u64) }
-func Int64() int64      { return int64(next("u64").u64) }
-func Uint64() uint64    { return next("u64").u64 }
-func Int32() int32      { return int32(next("u32").u64) }
-func Uint32() uint32    { return uint32(next("u32").u64) }
-func Byte() byte        { return byte(next("u8").u64) }
-func Bool() bool        { return next("bool").b }
-func String() string    { return next("string").s }
-func Bytes(max int) []byte  { return next("bytes").bs }
-func BytesN(n int) []byte   { return next("bytesn").bs }
-func Time() time.Time   { return next("time").t }
-func BigInt() *big.Int  { return next("big").big }
+func Int() int             { return int(next("u64").u64) }
+func Int64() int64         { return int64(next("u64").u64) }
+func Uint64() uint64       { return next("u64").u64 }
+func Int32() int32         { return int32(next("u32").u64) }
+func Uint32() uint32       { return uint32(next("u32").u64) }
+func Byte() byte           { return byte(next("u8").u64) }
+func Bool() bool           { return next("bool").b }
+func String() string       { return next("string").s }
+func Bytes(max int) []byte { return next("bytes").bs }
+func BytesN(n int) []byte  { return next("bytesn").bs }
+func Time() time.Time      { return next("time").t }
+func BigInt() *big.Int     { return next("big").big }
 
 // Assume restricts the inputs considered; natively a violated assumption means
 // the model does not apply and the replay is abandoned.
@@ -56,6 +57,17 @@ func Cover(label string) { Covers = append(Covers, label) }
 // Lazy returns an arbitrary object of type T (lazily initialised under the
 // symbolic executor; rebuilt from the model natively).
 func Lazy[T any](name string) *T { return lazyNative[T](name) }
+
+// NamedConsts lists the values of the string constants of a named type declared
+// in a package (read from the SSA program by the engine; replayed from the case file natively).
+func NamedConsts(pkgPath, typeName string) []string { return next("consts").list }
+
+// Matches reports whether s matches the regular expression (translated to an
+// SMT-LIB regular expression by the engine; regexp natively).
+func Matches(s, pattern string) bool { return regexp.MustCompile(pattern).MatchString(s) }
+
+// Param is a harness bound chosen by the check (tier dependent); def when unset.
+func Param(name string, def int) int { return next("param").n }
 
 func MonitorStart()            {}
 func MonitorStop()             {}
